@@ -258,7 +258,7 @@ def _chain(st) -> List[str]:
     return [x for x in out if isinstance(x, str) and x.startswith("&")]
 
 
-def v_r8_token_tables(p: Project, rep: Report, modules_prefix=("ofxtools.models", "ofxtools.Types", "ofxtools.header", "ofxtools.scripts.ofxget")):
+def v_r8_token_tables(p: Project, rep: Report, modules_prefix=("ofxtools.models", "ofxtools.Types", "ofxtools.header")):
     """no element of a table of tokens is an implicit concatenation of two string literals (a missing comma merges
     two enumeration tokens into one bogus token and drops both real ones)"""
     import io
